@@ -443,6 +443,8 @@ func runC09(c *Ctx) {
 		}
 	})
 
+	c.rule("C09.O3", "a rescan that (re)subscribes misses no reorganisation: "+backlogDoc, func() { c.backlogThenRegister() })
+
 	c.rule("C09.V1", "paysWatchedAddr: an output paying a watched address makes the created outpoint watched from then on (appended to both watchInputs and watchList)", func() {
 		fn := c.fn("(*neutrino.rescanOptions).paysWatchedAddr")
 		wi := c.field("neutrino", "rescanOptions", "watchInputs")
